@@ -258,6 +258,25 @@ def verify_target(db, reg, key, timeout_ms=20000, want_smt2=False, findings=(), 
                     for i, e in enumerate(c['ensures']):
                         g = ex.spec_bool(post, e)
                         ex.oblige(s2, g, '%s.ensures#%d' % (qual, i), 'ensures', key, {'clause': clause_text(e)})
+                    if 'modifies' in c:
+                        # frame: every declared field of every parameter object that is not listed keeps its value
+                        from .values import eq as _eq
+                        allowed = set(c['modifies'])
+                        for pname, pv in env.items():
+                            if not isinstance(pv, VObj) or pv.cls.startswith('$'):
+                                continue
+                            for fld, oldv in snapshot.heap.get(pv.ref, {}).items():
+                                if fld.startswith('$') or '%s.%s' % (pname, fld) in allowed or '%s.*' % pname in allowed:
+                                    continue
+                                newv = s2.heap.get(pv.ref, {}).get(fld)
+                                if newv is oldv:
+                                    continue
+                                try:
+                                    g = _eq(newv, oldv) if newv is not None else z3.BoolVal(False)
+                                except Unsupported:
+                                    g = z3.BoolVal(False)
+                                ex.oblige(s2, g, '%s.frame.%s.%s' % (qual, pname, fld), 'frame', key,
+                                          {'clause': '%s.%s is not modified' % (pname, fld)})
                     for tr in c.get('trace', []):
                         for oid, g, text in tr(ex, s2, post, val):
                             ex.oblige(s2, g, '%s.trace.%s' % (qual, oid), 'trace', key, {'clause': text})
@@ -288,6 +307,9 @@ def verify_target(db, reg, key, timeout_ms=20000, want_smt2=False, findings=(), 
                                       'clause': 'a normal exit is reachable'}
         for i, e in enumerate(c['ensures']):
             obl.setdefault('%s.ensures#%d' % (qual, i), new_ob('ensures', clause_text(e)))
+        if 'modifies' in c:
+            o_ = obl.setdefault('%s.frame' % qual, new_ob('frame', 'only %s is modified' % (c['modifies'] or 'nothing')))
+            o_['paths'] = max(1, normal_exits)
         # discharge
         for vc in all_vcs:
             o = obl.setdefault(vc.oid, new_ob(vc.kind, vc.info.get('clause', '')))
@@ -315,7 +337,10 @@ def verify_target(db, reg, key, timeout_ms=20000, want_smt2=False, findings=(), 
                 sp.spec = True
                 sp.env = dict(vc.inputs)
                 sp.pc = list(vc.pc)
-                klass = ex.spec_bool(sp, fnd[0]['class'])
+                if str(fnd[0]['class']).startswith('py:'):
+                    klass = reg.finding_classes[fnd[0]['class'][3:]](ex, vc.st)
+                else:
+                    klass = ex.spec_bool(sp, fnd[0]['class'])
                 pc = list(vc.pc) + [z3.Not(klass)]
                 o['known'] = True
                 o['finding_id'] = fnd[0].get('id')
